@@ -19,17 +19,19 @@ Record MemOk (M : Sem) := {
   ddat : list Z;                         (* data section bytes: immutable code *)
   b_of : Z -> list Z;                    (* word -> 32 bytes *)
   w_of : list Z -> Z;                    (* 32 bytes -> word *)
-  mget_put : forall s m, mget (mput s m) = m;
+  (* memory, calldata and the data section hold bytes; the memory can be replaced by any byte array *)
+  mem_bytes : forall s, bytes (mget s);
+  cd_bytes : forall s, bytes (cdat s);
+  dd_bytes : bytes ddat;
+  mget_put : forall s m, bytes m -> mget (mput s m) = m;
   mput_put : forall s m m', mput (mput s m) m' = mput s m';
-  mput_get : forall s, mput s (mget s) = s;
   cdat_put : forall s m, cdat (mput s m) = cdat s;
   getvar_put : forall s m x, getvar M (mput s m) x = getvar M s x;
   b_of_len : forall v, List.length (b_of v) = 32%nat;
+  b_of_bytes : forall v, bytes (b_of v);
   b_of_0 : b_of 0 = repeat 0 32;
-  (* memory, calldata and data section hold bytes: a word read from them stores back the same bytes *)
-  bw_mem : forall s a, b_of (wrap (w_of (rd (mget s) a 32))) = rd (mget s) a 32;
-  bw_cd : forall s a, b_of (wrap (w_of (rd (cdat s) a 32))) = rd (cdat s) a 32;
-  bw_dd : forall a, b_of (wrap (w_of (rd ddat a 32))) = rd ddat a 32;
+  (* a word made of 32 bytes stores back the same bytes *)
+  bw : forall bs, List.length bs = 32%nat -> bytes bs -> b_of (wrap (w_of bs)) = bs;
   (* calldatasize is the length of the calldata *)
   cds_len : forall s, (List.length (cdat s) <= zn (wrap (getvar M s "calldatasize")))%nat;
   (* the nodes; arguments are evaluated last-to-first *)
@@ -60,6 +62,13 @@ Notation ev := (eval SM).
 Notation eqval := (equiv_val SM).
 Notation MGET := (mget SM MO).
 Notation MPUT := (mput SM MO).
+
+Lemma bw_mem st a : b_of SM MO (wrap (w_of SM MO (rd (MGET st) a 32))) = rd (MGET st) a 32.
+Proof. apply (bw SM MO); [apply rd_length | apply bytes_rd, (mem_bytes SM MO)]. Qed.
+Lemma bw_cd st a : b_of SM MO (wrap (w_of SM MO (rd (cdat SM MO st) a 32))) = rd (cdat SM MO st) a 32.
+Proof. apply (bw SM MO); [apply rd_length | apply bytes_rd, (cd_bytes SM MO)]. Qed.
+Lemma bw_dd a : b_of SM MO (wrap (w_of SM MO (rd (ddat SM MO) a 32))) = rd (ddat SM MO) a 32.
+Proof. apply (bw SM MO); [apply rd_length | apply bytes_rd, (dd_bytes SM MO)]. Qed.
 
 (* ---- blocks: a seq runs its elements in order; its value is the value of the last one ---- *)
 Fixpoint blk (ds : list (den SM)) (v0 : Z) : den SM :=
@@ -376,7 +385,8 @@ Proof.
     + unfold node_safe. cbn. repeat (apply andb_true_iff; split); try reflexivity; apply Z.leb_le; lia.
   - (* cls_lit *) intros e d s n W C. destruct (zeroing_inv e d s n C) as [-> [[-> ->]| ->]]; wf_lits W; split; auto; wl.
   - (* compose *) intros d s t s2 n st Hd Hs Ht Hn _ _. unfold eff_z.
-    rewrite (mget_put SM MO), (mput_put SM MO). f_equal.
+    rewrite (mget_put SM MO) by (apply bytes_upd; [apply (mem_bytes SM MO) | apply bytes_repeat0]).
+    rewrite (mput_put SM MO). f_equal.
     rewrite zn_add by assumption.
     replace (zn d + zn t)%nat with (zn d + List.length (repeat 0%Z (zn t)))%nat by (rewrite repeat_length; reflexivity).
     rewrite upd_upd_adjacent.
@@ -404,6 +414,7 @@ Variable dat : St SM -> list Z. (*section*)
 Hypothesis kL : kind_of LOAD = KOther. (*section*)
 Hypothesis kC : kind_of COPY = KOther. (*section*)
 Hypothesis dat_put : forall st m, dat (MPUT st m) = dat st. (*section*)
+Hypothesis dat_bytes : forall st, bytes (dat st). (*section*)
 Hypothesis bw : forall st a, b_of SM MO (wrap (w_of SM MO (rd (dat st) a 32))) = rd (dat st) a 32. (*section*)
 Hypothesis K_load : forall da st, sem_K SM LOAD [da] st = (*section*)
   bindd SM da (fun a s1 => Norm (wrap (w_of SM MO (rd (dat s1) (zn a) 32))) s1) st.
@@ -428,7 +439,8 @@ Proof.
     + reflexivity.
   - intros e d s n W C. destruct (loading_inv LOAD e d s n C) as [-> ->]. wf_lits W. auto.
   - intros d s t s2 n st Hd Hs Ht Hn E _. rewrite (E eq_refl). unfold eff_x.
-    rewrite (mget_put SM MO), (mput_put SM MO), dat_put. f_equal.
+    rewrite (mget_put SM MO) by (apply bytes_upd; [apply (mem_bytes SM MO) | apply bytes_rd, dat_bytes]).
+    rewrite (mput_put SM MO), dat_put. f_equal.
     rewrite !zn_add by assumption.
     replace (zn d + zn t)%nat with (zn d + List.length (rd (dat st) (zn s) (zn t)))%nat by (rewrite rd_length; reflexivity).
     rewrite upd_upd_adjacent. rewrite <- rd_split. reflexivity.
@@ -441,14 +453,14 @@ Lemma calldataload_sound l c l' :
   equiv_val SM (Node "seq" l) (Node "seq" l') /\ Forall wf l'.
 Proof.
   apply (extload_sound "calldataload" "calldatacopy" (cdat SM MO)); try reflexivity.
-  - apply (cdat_put SM MO). - apply (bw_cd SM MO). - apply (K_calldataload SM MO). - apply (K_calldatacopy SM MO).
+  - apply (cdat_put SM MO). - apply (cd_bytes SM MO). - apply bw_cd. - apply (K_calldataload SM MO). - apply (K_calldatacopy SM MO).
 Qed.
 Lemma dload_sound l c l' :
   Forall wf l -> merge_load "dload" "dloadbytes" true l = Ok (c, l') ->
   equiv_val SM (Node "seq" l) (Node "seq" l') /\ Forall wf l'.
 Proof.
   apply (extload_sound "dload" "dloadbytes" (fun _ => ddat SM MO)); try reflexivity.
-  - intros st a. apply (bw_dd SM MO). - apply (K_dload SM MO). - apply (K_dloadbytes SM MO).
+  - intros st. apply (dd_bytes SM MO). - intros st a. apply bw_dd. - apply (K_dload SM MO). - apply (K_dloadbytes SM MO).
 Qed.
 
 (* mload -> mcopy: here the overlap guard matters *)
@@ -461,7 +473,8 @@ Proof.
   - intros e d s n W C Hd Hs Hn st. destruct (loading_inv "mload" e d s n C) as [-> ->].
     wf_lits W. rewrite ev_mstore. unfold bindd. rewrite (ev_load1 "mload") by reflexivity. rewrite (K_mload SM MO).
     unfold bindd. cbn [eval]. unfold ret. rewrite (wrap_nn s Hs Wa1), (wrap_nn d Hd Wa).
-    rewrite (mget_put SM MO), (mput_put SM MO), (bw_mem SM MO). reflexivity.
+    rewrite (mget_put SM MO) by (apply bytes_touch, (mem_bytes SM MO)).
+    rewrite (mput_put SM MO), bw_mem. reflexivity.
   - intros d s t Hd Hs Ht Ld Ls Lt. cbn [sp_load ms_mk]. split; [|split].
     + intros st. rewrite (ev_copy3 "mcopy") by reflexivity. rewrite (K_mcopy SM MO). unfold bindd. cbn [eval]. unfold ret.
       rewrite (wrap_nn t Ht Lt), (wrap_nn s Hs Ls), (wrap_nn d Hd Ld). reflexivity.
@@ -469,7 +482,8 @@ Proof.
     + reflexivity.
   - intros e d s n W C. destruct (loading_inv "mload" e d s n C) as [-> ->]. wf_lits W. auto.
   - intros d s t s2 n st Hd Hs Ht Hn E G. rewrite (E eq_refl). unfold eff_m.
-    rewrite (mget_put SM MO), (mput_put SM MO). f_equal.
+    rewrite (mget_put SM MO) by (apply bytes_mcopy, (mem_bytes SM MO)).
+    rewrite (mput_put SM MO). f_equal.
     rewrite !zn_add by assumption. apply mcopy_compose.
     specialize (G eq_refl). cbn [r_src r_dst r_total] in G. unfold zn.
     destruct (Z_le_dec d s); [left; apply Z2Nat.inj_le; lia|]. right.
@@ -491,7 +505,7 @@ Proof.
     unfold bindd. rewrite (ev_load1 "dload") by reflexivity. rewrite (K_dload SM MO). unfold bindd.
     cbn [eval]. unfold ret. change (wrap 32) with 32.
     destruct (ev a2 st) as [vs s1|]; [|reflexivity]. destruct (ev a s1) as [vd s2|]; [|reflexivity].
-    rewrite (bw_dd SM MO). reflexivity.
+    rewrite bw_dd. reflexivity.
   - apply (proj2 (wf_node _ _)). constructor; [exact Wa|]. constructor; [exact Wa1|]. constructor; [|constructor]. cbn [wf]. wl.
 Qed.
 Lemma rewrite_mstore_dload_sound l :
